@@ -173,7 +173,8 @@ func ZZVerif_C01_AppendBMC() {
 	zzverif.Reach("end")
 }
 
-// ZZVerif_C08_UpdatableBMC: K upserts at arbitrary positions 0..3 of the updatable tree, restart possible before each. For every
+// ZZVerif_C08_UpdatableBMC: K upserts at arbitrary positions 0..3 of the updatable tree (in new blocks or further down the same
+// block), restart possible before each. For every
 // recorded root j and every position i: GetLeaf(i, root_j) is the value last written at i as of j (zero if never written)
 // and, when the position was written, the proof returned for (i, root_j) hashes with that leaf to root_j.
 func ZZVerif_C08_UpdatableBMC() {
@@ -186,9 +187,16 @@ func ZZVerif_C08_UpdatableBMC() {
 	hist := make([][4]common.Hash, k)
 	histW := make([][4]bool, k)
 	roots := make([]common.Hash, k)
+	blk, bpos := uint64(0), uint64(0)
 	for s := 0; s < k; s++ {
 		if zzverif.Bool("restart") {
 			t = NewUpdatableTree(database, "")
+		}
+		// several updates may share a block (ordered by their position in the block)
+		if s > 0 && zzverif.Bool("sameBlock") {
+			bpos += 1 + uint64(zzverif.U8("posGap"))
+		} else {
+			blk, bpos = blk+1, uint64(zzverif.U8("firstPos"))
 		}
 		pos := uint32(zzverif.Int("pos", 0, 3))
 		v := common.Hash(zzverif.Hash("val"))
@@ -199,7 +207,7 @@ func ZZVerif_C08_UpdatableBMC() {
 		}
 		tx, err := db.NewTx(ctx, database)
 		zzverif.Assert("begin", err == nil)
-		r, err := t.UpsertLeaf(tx, uint64(s+1), 0, types.Leaf{Index: pos, Hash: v})
+		r, err := t.UpsertLeaf(tx, blk, bpos, types.Leaf{Index: pos, Hash: v})
 		zzverif.Assert("UpsertLeaf succeeds", err == nil)
 		zzverif.Assert("commit", tx.Commit() == nil)
 		cur[pos] = v
